@@ -70,6 +70,7 @@ REQUIRED = [
     "Swh.C12.revision_legacy_headers",
     "Swh.C12.metadata_legacy_target",
     "Swh.C12.roundTrip_stable",
+    "Swh.C12.enum_tables",
 ]
 RULE = (
     "a type-directed generator over all 18 model classes (independent of the shipped strategies): every admissible "
